@@ -6,6 +6,7 @@ import (
 	"fmt"
 	"io"
 	"os"
+	"syscall"
 	"path/filepath"
 	"sort"
 	"strings"
@@ -64,6 +65,8 @@ type nodeInc struct {
 	obs      incObs
 	acked, ackedTerm uint64 // highest (index,term) this incarnation acknowledged as stored and still holds
 	pendPrev, pendN  uint64 // append request in progress
+	diskErrs  int // disk errors injected into this incarnation
+	obsBroken bool
 	crashAtIO int // >0: crash when this many more I/O calls were made by this incarnation
 	ioCount   int
 	startedAt int64
@@ -73,6 +76,17 @@ func (ni *nodeInc) String() string { return fmt.Sprintf("n%d.%d", ni.node.id, ni
 
 // live: running, not crashed, New succeeded
 func (ni *nodeInc) live() bool { return ni != nil && !ni.dead && !ni.exited && ni.r != nil }
+
+// closing: the node has begun to shut down (on request, or because it failed): its
+// in-memory state is being torn down and is no longer observed.
+func (ni *nodeInc) closing() bool {
+	select {
+	case <-ni.r.close:
+		return true
+	default:
+		return false
+	}
+}
 
 // locked: the lock file of the directory exists, i.e. the instance is past lockDir and before unlockDir.
 func (ni *nodeInc) locked() bool {
@@ -159,6 +173,17 @@ func (run *simRun) violate(prop, oracle, sig, format string, a ...interface{}) {
 	}
 	run.tape.Frozen++
 	defer func() { run.tape.Frozen-- }()
+	if run.prof.DiskErr > 0 {
+		// with storage errors injected only the safety core is demanded (DESIGN 4): a node may
+		// stop, refuse work or report odd status, it must not break election safety, committed
+		// entries, state-machine agreement, log matching, votes or restartability
+		switch prop {
+		case "C01", "C02", "C03", "C04", "C05", "C10":
+		default:
+			run.st.Reach["ignored_under_disk_errors:"+prop]++
+			return
+		}
+	}
 	if run.target != "" && prop != run.target && oracle != "panic" && oracle != "deadlock" && prop != "C17" {
 		// a check decides its own property: violations of other properties are recorded
 		// (once per signature) and the run goes on, so that the property's own symptoms
@@ -465,6 +490,9 @@ func (run *simRun) startNode(node *simNode) *nodeInc {
 	}
 	ni.nc = &rt.NodeCtx{ID: ncID, Inc: ni.n, ClockPPM: ppm, ClockOff: int64(ncID) * 3600e9, User: ni}
 	ni.fsm = &recFSM{inc: ni}
+	if old, ok := run.net.Listeners[node.addr]; ok {
+		_ = old.CloseNow() // left by an incarnation that never got to serve
+	}
 	l, err := run.net.Listen(ni.nc, node.addr)
 	if err != nil {
 		run.infra = "listen: " + err.Error()
@@ -557,6 +585,24 @@ func (run *simRun) ioHook(op, path string) error {
 		return nil
 	}
 	ni.ioCount++
+	if run.prof.DiskErr > 0 && run.phase == "chaos" {
+		switch op {
+		case "create", "open", "write", "truncate", "rename", "fsync", "msync", "mkdir", "link", "mmap":
+			if run.tape.Chance(rt.StDisk, run.prof.DiskErr, 10000) {
+				ni.diskErrs++
+				run.fault("disk_error:" + op)
+				var e error = syscall.ENOSPC
+				if run.tape.Chance(rt.StDisk, 1, 2) {
+					e = syscall.EIO
+				}
+				if op == "write" && run.tape.Chance(rt.StDisk, 1, 2) {
+					run.fault("torn_write")
+					return simos.Short{Err: e}
+				}
+				return e
+			}
+		}
+	}
 	if ni.crashAtIO > 0 {
 		ni.crashAtIO--
 		if ni.crashAtIO == 0 {
@@ -924,6 +970,13 @@ func (run *simRun) onPanic() {
 		msg := fmt.Sprint(p.Value)
 		if err, ok := p.Value.(error); ok {
 			msg = err.Error()
+		}
+		if ni != nil && ni.diskErrs > 0 {
+			// a storage error was injected into this process: dying of it is outside C15
+			// ("in the absence of storage errors"); the process is gone, as after a crash
+			run.reach("process_died_of_disk_error")
+			run.crash(ni, "diskerr")
+			continue
 		}
 		if strings.HasPrefix(msg, "rt:") || strings.HasPrefix(msg, "simharness:") {
 			run.infra = "panic in simulator: " + msg + "\n" + p.Stack
